@@ -178,6 +178,7 @@ pub fn run(e: &'static Engine) {
          reference Berlekamp-Massey/Chien/Forney decoder must recover the data codewords and payload. Non-trivial: >= 2 blocks, \
          or a two-group layout, or corruption applied; distinct by case hash.",
     );
+    e.extend_rule("block look-alike payloads and thread histories come in through the shared generators.");
     e.assume("refmodel Table 9 (typed) is right: guarded by blocks*ec+data=total identity and the qrcode-crate self-test");
     e.assume("refmodel GF(256)/RS decoder is right: unit-tested against computed codewords");
     crate::engine::run_regress(e, &|c, o| replay(e, c, o));
